@@ -21,8 +21,9 @@ type Decision struct {
 	Kind  DecKind
 	Val   uint64 // branch: side; choice: index; conc: candidate value
 	Taken uint64 // conc: 1 if equal branch taken
-	N     int    // choice arity
-	Label string
+	N       int    // choice arity
+	Label   string
+	Payload []int // scheduler decisions: goroutines put to sleep (partial-order reduction)
 }
 
 func (d Decision) String() string {
@@ -77,6 +78,7 @@ type Stats struct {
 	PathsInfeas   int
 	PathsViol     int
 	PathsKnown    int
+	PathsPruned   int
 	Decisions     int
 	Asserts       int
 	AssertsSolver int
@@ -365,6 +367,34 @@ func (ex *Explorer) Choose(n int, label string) int {
 	return 0
 }
 
+// ChooseP is Choose with a per-alternative payload that is recorded in the decision (used by
+// the scheduler for sleep sets).
+func (ex *Explorer) ChooseP(n int, label string, payload func(i int) []int) (int, []int) {
+	if ex.concrete != nil {
+		return ex.Choose(n, label), nil
+	}
+	ex.Stats.Decisions++
+	name := ex.freshName("choice:" + label)
+	if ex.pos < len(ex.prefix) {
+		d := ex.prefix[ex.pos]
+		ex.pos++
+		if d.Kind != DecChoice || d.N != n {
+			panic(pathAbort{"unsupported", fmt.Sprintf("nondeterministic re-execution at choice %s (n=%d, recorded %v)", label, n, d)})
+		}
+		ex.trail = append(ex.trail, d)
+		ex.model.Vars[name] = d.Val
+		return int(d.Val), d.Payload
+	}
+	for i := n - 1; i >= 1; i-- {
+		m := ex.model.Clone()
+		m.Vars[name] = uint64(i)
+		ex.pushWork(Decision{Kind: DecChoice, Val: uint64(i), N: n, Label: label, Payload: payload(i)}, m)
+	}
+	ex.trail = append(ex.trail, Decision{Kind: DecChoice, Val: 0, N: n, Label: label})
+	ex.model.Vars[name] = 0
+	return 0, nil
+}
+
 // Concretize enumerates the feasible values of t one at a time.
 func (ex *Explorer) Concretize(t *Term, what string) uint64 {
 	if t.IsConst() {
@@ -610,6 +640,8 @@ func (ex *Explorer) runOne(run func()) {
 		}
 	case "infeasible":
 		ex.Stats.PathsInfeas++
+	case "pruned":
+		ex.Stats.PathsPruned++
 	case "violation":
 		ex.Stats.PathsViol++
 	}
